@@ -35,6 +35,9 @@ NAMES = ["a", "b", "c", "d", "e", "f", "g"]
 PLAIN_HEADS = ["x1", "zz", "true"]
 DECOS = ["@error_ignore", "@error_raise", "@thread", "@vdeco"]
 ARGS = ["-1", "-2", "--k=v", "w", "p/q", "7", "-"]
+# what a user passed as r'~' / @('$HOME') / r'a=~/y': by the time aliases are resolved these are plain strings and
+# must be preserved verbatim - only the alias's *own* words are path-expanded
+PROTECTED_ARGS = ["~", "~/x", "$HOME", "a=~/y", "$HOME/z", "x:~"]
 
 
 class _Timeout(Exception):
@@ -348,7 +351,11 @@ def exhaustive_cases():
             continue
         perm = list(reversed(range(len(items)))) if len(items) > 1 else None
         for inv in names:
-            for uargs in ([], ["u", "-v"]):
+            for uargs in ([], ["u", "-v"], ["~", "$HOME"]):
+                if uargs and uargs[0] == "~" and any(it[1] == "ret" for it in items):
+                    # a return_command alias hands the arguments back as part of *its own* command, whose words
+                    # are path-expanded like any alias body: verbatim delivery cannot be demanded there
+                    continue
                 for lead in ([], ["@error_raise"]):
                     line = lead + [inv] + uargs
                     yield {"table": items, "line": line, "perm": perm}
@@ -406,7 +413,10 @@ def case_strategy():
         perm = list(draw(st.permutations(range(len(items))))) if len(items) > 1 else None
         lead = [draw(st.sampled_from(DECOS)) for _ in range(draw(st.sampled_from([0, 0, 0, 1, 2])))]
         inv = draw(st.sampled_from(names + names + PLAIN_HEADS))
-        uargs = draw(st.lists(st.sampled_from(ARGS + ["u", "v w", "a", "b"]), max_size=4))
+        pool = ARGS + ["u", "v w", "a", "b"]
+        if not any(it[1] == "ret" for it in items):
+            pool = pool + PROTECTED_ARGS        # (see exhaustive_cases: not through return_command aliases)
+        uargs = draw(st.lists(st.sampled_from(pool), max_size=4))
         return {"table": items, "line": lead + [inv] + uargs, "perm": perm}
 
     return cases()
@@ -555,7 +565,7 @@ def main(run):
     nsh = 8
     args = [(i, nsh, run.scratch) for i in range(nsh)]
     common.pool_map(run, __name__, "worker_exhaustive", args)
-    run.extra["exhaustive_subspace"] = "3 names x 13 bodies x invoked name x 2 arg sets x 2 leading-decorator settings"
+    run.extra["exhaustive_subspace"] = "3 names x 13 bodies x invoked name x 3 user-argument sets (one with ~ / $HOME) x 2 leading-decorator settings"
     nw = 8 if run.tier == "quick" else 16
     per = run.n(2500, 60000)
     common.pool_map(run, __name__, "worker_random",
